@@ -179,7 +179,7 @@ func flat(run *Run, s *Snap) []string {
 	}
 	for i := 0; i < 2; i++ {
 		if a := s.Ass[refAssigner+i]; a != nil {
-			add("1", u(a.Indiv), u(a.Total), u(a.Redeemed), zi(len(a.Nonces)))
+			add("1", u(a.Indiv), u(a.Total), u(a.Redeemed), zi(a.Key), zi(len(a.Nonces)))
 			for _, n := range a.Nonces {
 				add(z(n))
 			}
